@@ -108,6 +108,14 @@ check("C10",
       "by TraceScan.tla, and eager/chunked Returns are validated against Ref!RefScan.",
       TB + " Positions whose label is missing are unspecified.", "TLC scan-operator model + task-level and API-level trace validation", "DESIGN.md section 5 C10")
 
+check("C17",
+      "MC_Rechunk: the transcribed _get_optimal_chunks_for_groups and the division loop of rechunk_for_cohorts satisfy the postconditions (valid chunks, no "
+      "group straddling a boundary for sequential labels, forced labels start chunks, old boundaries kept unless ignored) for all label sequences up to 6|8 with "
+      "all chunkings, forced sets, chunksize hints; the REAL helpers (array and xarray flavours) are run on all sorted runs x chunkings and on periodic patterns "
+      "and validated by TraceRechunk.tla (postconditions, data preserved, drift vs the transcription); method='blockwise' on sorted labels under arbitrary "
+      "chunking is validated against Ref.",
+      TB, "TLC on the transcribed helpers + trace validation of the real helpers", "DESIGN.md section 5 C17")
+
 ALL = [f"C{n:02d}" for n in range(1, 21)]
 
 def main():
